@@ -126,6 +126,8 @@ def write_evidence(prop, profile, tier, seed, results, wall, violations, extra=N
 
 def cmd_check(args):
     prop = args.property
+    if prop in ("C20", "configs"):
+        return cmd_check_c20(args)
     profile = get_profile(prop)
     tier = args.tier or os.environ.get("VERIF_TIER") or "quick"
     cfg = dict(TIERS[profile.name][tier])
@@ -209,14 +211,143 @@ def cmd_check(args):
     return rc
 
 
+C20_PROFILES = ["paths", "finders", "derived", "algebra"]
+
+
+def cmd_check_c20(args):
+    """C20: the config-generic claimed oracles (C05, C11, C12, C10 relations) in processes started on generated
+    configuration packages. Each variant gets its own worker pool (the package is first on the python path)."""
+    import shutil
+    import tempfile
+    from . import confgen
+    from .world import scratch_base
+    prop = "C20"
+    tier = args.tier or os.environ.get("VERIF_TIER") or "quick"
+    cfg = dict(TIERS["configs"][tier])
+    base_seed = int(args.seed if args.seed is not None else os.environ.get("VERIF_SEED", 20261003))
+    budget = float(args.budget or os.environ.get("VERIF_BUDGET_S") or cfg["budget_s"])
+    workers = int(args.workers or os.environ.get("VERIF_WORKERS") or min(16, os.cpu_count() or 8))
+    n_var = int(args.runs or cfg["variants"])
+    t0 = time.time()
+    variants = [0] + [1 + (O.derive(base_seed, "c20variant", i) % 100000) for i in range(n_var - 1)]
+    if args.variant is not None:
+        variants = [args.variant]
+    tmp = tempfile.mkdtemp(prefix="spil-c20-", dir=scratch_base())
+    results, bad = [], []
+    per_variant = {}
+    rc = 0
+    known = load_known()
+    profile = get_profile("paths")
+    try:
+        for vi, v in enumerate(variants):
+            if time.time() - t0 > budget and vi > 0:
+                break
+            desc = confgen.make_variant(v)
+            pkg = confgen.emit(desc, os.path.join(tmp, "v%d" % v))
+            pool = None
+            try:
+                pool = O.Pool(args.repo, workers, conf_src=pkg, req_timeout=cfg.get("req_timeout", 600))
+                vres = []
+                for pname in C20_PROFILES:
+                    seeds = O.run_seeds(base_seed, "C20-%s-%d" % (pname, v), cfg["runs_per_profile"])
+                    vbad = []
+                    r = O.batch(pool, pname, seeds, tier, max(5.0, budget / max(1, len(variants))), stop_on_violation=args.mutant_mode,
+                                on_result=lambda m, vb=vbad: vb.append(m) if m.get("violations") else None, max_bad=3, bad=vbad)
+                    for x in r:
+                        x["variant"] = v
+                    vres += r
+                    # minimise inside this variant's pool (the replay needs this configuration)
+                    groups = {}
+                    for x in vbad:
+                        groups.setdefault(x["violations"][0]["oracle"], []).append(x)
+                    for oracle, rs in sorted(groups.items()):
+                        r0 = sorted(rs, key=lambda q: len(q["steps"]))[0]
+                        best = None if args.no_minimise else Minimiser(pool, r0, budget=cfg.get("min_budget", 120)).run()
+                        final = dict(best or r0)
+                        final["variant"] = v
+                        final["transformations"] = desc.get("transformations", [])
+                        bad.append(final)
+                results += vres
+                per_variant[str(v)] = {"transformations": desc.get("transformations", ["mirror of the demo"]),
+                                       "runs": sum(1 for x in vres if "stats" in x),
+                                       "violating": sum(1 for x in vres if x.get("violations"))}
+                herr = [x for x in vres if x.get("harness_error")]
+                if herr:
+                    print("HARNESS-ERROR (variant %d): %s" % (v, str(herr[0]["harness_error"])[:1500]))
+                    rc = 2
+            except O.HarnessFailure as ex:
+                print("HARNESS-ERROR (variant %d %s): %s" % (v, desc.get("transformations"), str(ex)[:1500]))
+                rc = 2
+            finally:
+                if pool:
+                    pool.close()
+                shutil.rmtree(pkg, ignore_errors=True)
+        n_viol = 0
+        seen = set()
+        for final in bad:
+            oracle = final["violations"][0]["oracle"]
+            k = match_known(known, prop, final["violations"][0])
+            key = (oracle, k["what"] if k else None)
+            path = "-"
+            if not args.mutant_mode:
+                doc_path = write_replay(dict(final, profile=final["profile"]), prop)
+                with open(doc_path) as f:
+                    doc = json.load(f)
+                doc["variant"] = final["variant"]
+                doc["transformations"] = final.get("transformations")
+                with open(doc_path, "w") as f:
+                    json.dump(doc, f, indent=1, sort_keys=True)
+                path = doc_path
+            if k:
+                if key not in seen:
+                    print("KNOWN-FINDING: property=%s %s (replay=%s)" % (prop, k["what"], path))
+            else:
+                n_viol += 1
+                print("VIOLATION property=%s replay=%s" % (prop, path))
+                print("  variant=%s %s oracle=%s seed=%s steps=%d" % (final["variant"], final.get("transformations"), oracle,
+                                                                   final["seed"], len(final["steps"])))
+                print("  detail=" + json.dumps(final["violations"][0].get("detail"))[:1500])
+            seen.add(key)
+        wall = time.time() - t0
+        if not args.mutant_mode:
+            class P:  # evidence adapter
+                level = "exploration"
+                rule = ("one case = one seeded run of a config-generic claimed profile (paths C05, finders C11, derived C12, algebra "
+                        "C10 relations) in worker processes started with a generated configuration package first on the python path; "
+                        "distinct = distinct case marks of those profiles, per variant")
+                assumptions = profile.assumptions + ["generated variants keep the documented conventions (checked by construction, see confgen.py)"]
+
+                @staticmethod
+                def evaluations(stats, runs):
+                    return runs
+            for x in results:
+                if x.get("cases"):
+                    x["cases"] = ["%s:%s" % (x.get("variant"), c) for c in x["cases"]]
+            write_evidence(prop, P, tier, base_seed, results, wall, n_viol,
+                           {"variants": per_variant, "variants_run": len(per_variant), "profiles_per_variant": C20_PROFILES})
+        if n_viol and rc == 0:
+            rc = 1
+        print("C20 %s: %d variants, %d runs, %d violating groups, %.1fs" % (tier, len(per_variant),
+                                                                             sum(1 for x in results if "stats" in x), len(bad), wall))
+    finally:
+        shutil.rmtree(tmp, ignore_errors=True)
+    return rc
+
+
 def cmd_replay(args):
     with open(args.file) as f:
         doc = json.load(f)
     prop = doc["property"]
     h = int(doc["hash_seed"]) if str(doc["hash_seed"]).isdigit() else 0
     pool = None
+    pkg = None
     try:
-        pool = O.Pool(args.repo, 1, hash_seeds=[h])
+        if doc.get("variant") is not None:
+            import tempfile
+            from . import confgen
+            from .world import scratch_base
+            pkg = confgen.emit(confgen.make_variant(doc["variant"]), tempfile.mkdtemp(prefix="spil-c20-", dir=scratch_base()))
+        pool = O.Pool(args.repo, 1, hash_seeds=[h], conf_src=pkg)
         req = {"profile": doc["profile"], "seed": doc["seed"], "tier": doc.get("tier", "quick"),
                "replay": {"params": doc["params"], "steps": doc["steps"]}}
         r = pool.call(req, h)
@@ -250,6 +381,9 @@ def cmd_replay(args):
     finally:
         if pool:
             pool.close()
+        if pkg:
+            import shutil
+            shutil.rmtree(pkg, ignore_errors=True)
 
 
 def main(argv=None):
@@ -266,6 +400,7 @@ def main(argv=None):
     c.add_argument("--no-minimise", action="store_true")
     c.add_argument("--stop-first", action="store_true")
     c.add_argument("--no-sweep", action="store_true")
+    c.add_argument("--variant", type=int, help="C20: run this configuration variant only")
     c.add_argument("--mutant-mode", action="store_true", help="scratch copy under test: no evidence, no replay files, stop at the first violation")
     r = sub.add_parser("replay")
     r.add_argument("file")
